@@ -7,6 +7,7 @@ k-th _emit_text of a call (every k for short inputs), followed by further calls;
 must equal a fresh object's, and the object must not keep frames of the abandoned call.
 Everything runs in crash-isolating children (a hang or a killed interpreter is a failure).
 """
+import os
 import random
 
 import vlib
@@ -103,7 +104,14 @@ def one_history(seed):
                 except Exception as e:  # noqa: BLE001
                     outcome = "exc " + type(e).__name__
             finally:
+                fired = ARM["n"] >= k
                 _disarm()
+            if fired and outcome != "aborted":
+                # the exception raised inside the call did not come out of it: the call went on after it (its
+                # result then depends on more than the input) or reported something else
+                return target, texts, "an exception raised at the %d-th %s of a call on %r was swallowed: the call %s" % (
+                    k, "token construction" if site == "token" else site, t,
+                    "returned normally" if outcome == "completed" else "ended with " + outcome[4:]), True
             if outcome != "completed":
                 aborted += 1
         # after whatever happened: the object must behave like a fresh one on every later call
@@ -152,6 +160,8 @@ def run(tier, seed):
             nontrivial.add(s)
         if failure:
             c.fail(failure, {"seed": s, "target": target, "texts": texts})
+            if os.environ.get("C06_DEBUG"):
+                open(os.environ["C06_DEBUG"], "a").write(repr((s, target, texts, failure)) + "\n")
     c.cov["distinct_nontrivial"] = len(nontrivial)
     c.cov["rule"] = ("histories of 2-4 calls on one object (Python Tokenizer, CTokenizer, Parser) over the shared input generator; each call "
                      "with probability 0.6 gets a BaseException injected at the k-th (1..10) token construction, or (Python tokenizer) at the "
